@@ -97,6 +97,8 @@ def verify(pk: bytes, m: bytes, sig: bytes) -> bool:
     Schnorr sig verification per
     https://github.com/bitcoin/bips/blob/master/bip-0340.mediawiki#verification
     """
+    assert len(pk) == 32, "public key must be 32 bytes"
+    assert len(sig) == 64, "signature must be 64 bytes"
     x, y = lift_x(pk)
     assert point_is_on_curve(x, y), "point is not on the curve"
     r = int.from_bytes(sig[:32], "big")
